@@ -67,6 +67,10 @@ class Item(models.Model):
     g1 = models.UUIDField(null=True)
     owner = models.ForeignKey(Owner, null=True, on_delete=models.SET_NULL, related_name="items")
     home = models.ForeignKey(Region, null=True, on_delete=models.SET_NULL, related_name="stored_items")
+    # a relationship whose name ends in the name of another one (`owner`): only base queries join it
+    # (it points at Country so that joining it never puts a table into the query that a filter's own
+    # `owner` path needs as well - that would be known finding A8)
+    co_owner = models.ForeignKey(Country, null=True, on_delete=models.SET_NULL, related_name="co_owned")
     tags = models.ManyToManyField(Tag, related_name="items")
 
     objects = models.Manager()
